@@ -141,6 +141,56 @@ Theorem C12_box_sound_tidd : forall Tmin Tmax qlo qhi, qlo < qhi ->
 Proof. exact (box_sound_tidd_coded lo hi). Qed.
 Print Assumptions C12_box_sound_tidd.
 
+Definition Ftc (a b c d : float) : tconstr FNum := Build_tconstr FNum a b c d.
+
+(* ------------------------------------------------------------------ the recorded temperature limits (get_T_bnds) *)
+
+(* utilities/base_model.py get_T_bnds is in the model (Model/Refine.v: insertion sort + order statistics) and compared with
+   the implementation on synthetic arrays and on the temperatures of every fitted component.  Proved for EVERY list of
+   fitted temperatures T and every segment_minimum_count n: *)
+Print get_T_bnds.
+
+(* T_min <= T_min_seg <= T_max_seg <= T_max as soon as the two outer segments do not overlap (2 n <= number of days):
+   this is the [bounds_ok] hypothesis of the theorems above, now derived from the data *)
+Theorem C12_recorded_limits_ordered : forall (T : list R) n tc, get_T_bnds RNum T n = Some tc -> (2 * n <= length T)%nat ->
+  bounds_ok lo hi tc.
+Proof. exact (get_T_bnds_ordered lo hi). Qed.
+Print Assumptions C12_recorded_limits_ordered.
+
+(* every recorded limit is the temperature of a fitted day, and T_min / T_max bound all of them *)
+Theorem C12_recorded_limits_are_fitted_days : forall (T : list R) n tc, get_T_bnds RNum T n = Some tc ->
+  In (T_min tc) T /\ In (T_max tc) T /\ In (T_min_seg tc) T /\ In (T_max_seg tc) T.
+Proof. exact (get_T_bnds_members lo hi). Qed.
+Print Assumptions C12_recorded_limits_are_fitted_days.
+
+Theorem C12_recorded_limits_bound_the_days : forall (T : list R) n tc, get_T_bnds RNum T n = Some tc ->
+  forall t, In t T -> T_min tc <= t <= T_max tc.
+Proof. exact (get_T_bnds_range lo hi). Qed.
+Print Assumptions C12_recorded_limits_bound_the_days.
+
+(* admissibility with NO hypothesis on the limits: they are computed from the fitted days *)
+Theorem C12_fitted_component_admissible : forall (T : list R) n tc qlo qhi key raw,
+  get_T_bnds RNum T n = Some tc -> (2 * n <= length T)%nat ->
+  box_spec (T_min tc) (T_max tc) qlo qhi key raw ->
+  exists c, named_coeffs RNum key raw tc = Some c /\
+            wellformed lo hi (T_min tc) (T_max tc) (T_min_seg tc) (T_max_seg tc) qlo qhi c.
+Proof. exact (fitted_component_admissible lo hi). Qed.
+Print Assumptions C12_fitted_component_admissible.
+
+(* non-vacuity (binary64, same text): 11 billing periods, segment_minimum_count 3 -> ordered limits *)
+Definition periods11 : list float := [33.5; 41; 49; 52.25; 57; 61; 64.5; 68; 71.5; 74; 76.25]%float.
+Example ex_limits_11_periods_n3 :
+  get_T_bnds FNum periods11 3 = Some (Ftc 33.5 76.25 52.25 71.5).
+Proof. vm_compute. reflexivity. Qed.
+(* the guard 2 n <= number of days is sharp: with segment_minimum_count 10 on the same 11 periods (what the seeded
+   settings change C12-5 produced) T_min_seg = T_max and T_max_seg is the second coldest period: not ordered *)
+Example C12_limits_overlap_refuted :
+  get_T_bnds FNum periods11 10 = Some (Ftc 33.5 76.25 76.25 41).
+Proof. vm_compute. reflexivity. Qed.
+(* out of bounds = the ValueError of np.partition *)
+Example ex_limits_out_of_bounds : get_T_bnds FNum periods11 11 = None.
+Proof. vm_compute. reflexivity. Qed.
+
 (* ------------------------------------------------------------------ read-back: where stored = scored is proved *)
 
 (* When the optimiser's balance points are ordered and STRICTLY inside [T_min_seg, T_max_seg], and a zero slope comes
@@ -261,7 +311,6 @@ Print Assumptions C12_statement_refuted.
 
 (* ------------------------------------------------------------------ the other read-back defects, same text at binary64 *)
 
-Definition Ftc (a b c d : float) : tconstr FNum := Build_tconstr FNum a b c d.
 Definition differ_by_1 (a b : option float) : bool :=
   match a, b with
   | Some x, Some y => PrimFloat.ltb (PrimFloat.add x 1) y || PrimFloat.ltb (PrimFloat.add y 1) x
